@@ -3,7 +3,8 @@ from __future__ import annotations
 
 from .queries import names_of
 
-LEAVES = [None, True, False, 0, 1, 2, -1, 1.0, 1.5, 0.0, -0.0, "", "a", "b", "ab", "é", "\U0001F600", [], {}, 10, 100, "1", "0"]
+LEAVES = [None, True, False, 0, 1, 2, -1, 1.0, 1.5, 0.0, -0.0, "", "a", "b", "ab", "é", "\U0001F600", [], {}, 10, 100, "1", "0",
+          2**53, 2**53 + 1, -(2**53) - 1, 10**20, 1e16, 9007199254740992.0, 1e308, 5e-324, "e\u0301", "\u212a", "K", "k", "\u00df", "ss"]
 
 
 def near_misses(v):
